@@ -173,6 +173,7 @@ func (x *Exec) sentinelFacts(qname string) {
 	h := globalTerm(qname, "", SInt)
 	x.assumeTrue(Gt(h, Num(0)))
 	x.assumeTrue(Lt(App("dyntype", SInt, h), Num(0)))
+	x.assumeTrue(Eq(App("pkgerr", SBool, h), Bool(gi != nil)))
 	for other := range x.sentinels {
 		x.assumeTrue(Ne(h, globalTerm(other, "", SInt)))
 	}
